@@ -13,17 +13,23 @@ PROPERTY = "C12"
 BASE = "internet/base.py"
 Q = "twisted.internet.base._ThreePhaseEvent"
 PHASES = ("before", "during", "after")
-TECHNIQUE = "queue-end kinds, CFG must-pass with swallowing-with edges, who-may-call, handle/tuple agreement"
+TECHNIQUE = "queue-end kinds, must-pass with swallowing edges, who-may-call, table agreement"
 EXPLANATION = (
-    "Decides on _ThreePhaseEvent: triggers are appended (validated phase) and consumed from the head (pop(0)/popleft) before being "
-    "called, so each runs once and in registration order; every trigger call-out passes the registered args and sits inside a "
-    "swallowing `with` that is itself inside the loop (the swallowing is derived from logger/_logger.py: failureHandler -> "
-    "__exit__ returns True on every path), also on the exception path the result variable is defined; every Deferred returned by a "
-    "before-trigger is collected into the list given to one DeferredList without fireOnOne* flags, whose callback is the only "
-    "reference to _continueFiring; _continueFiring drains during then after; finishedBefore is appended between pop and call; "
-    "removeTrigger dispatches on a state that has a method, removers agree with the handle layout and really remove unless the "
-    "before-trigger already ran. Not decided: DeferredList's own semantics (C04), what triggers do."
+    "Every clause is decided STRUCTURALLY on a normalised copy of _ThreePhaseEvent (private helpers inlined, temporaries substituted, phase-name constants "
+    "resolved, drain generators summarised). "
+    "Once each, in registration order - queue-end kinds: triggers are appended under a validated phase name and consumed from the head (pop(0) / popleft, "
+    "directly or through a drain generator) before being called; each consumed trigger reaches exactly one call-out with its registered arguments (must-pass). "
+    "A raising trigger does not stop the others - exception-edge CFG: each call-out sits in a swallowing `with` placed inside the loop; swallowing is derived "
+    "from logger/_logger.py (failureHandler -> class whose __exit__ returns True on every path); the result variable is defined on the exception path (def-use). "
+    "Phases - def-use + who-may-call: every Deferred a before-trigger returns is collected, without extra condition, into the list given to the single "
+    "DeferredList created after the loop without fireOnOne* flags, whose callback is the only reference to _continueFiring; _continueFiring drains during then "
+    "after (literal order / path order). "
+    "Removal - table agreement + must-pass: state strings have removeTrigger_<STATE> methods, handle layout agrees between addTrigger, both removers and the "
+    "stored tuple, finishedBefore is appended between pop and call, removal during the before phase really removes unless the trigger already ran, the "
+    "continuation leaves the BEFORE state. "
+    "Not decided here: DeferredList's own semantics (C04), what triggers do."
 )
+RULE_KINDS = {"*": "structural"}
 ASSUMPTIONS = [
     "rules read a normalised copy of the class: a private non-generator method that is not an anchor, is only ever called as self._h(...) "
     "inside its class and is mentioned in no other module is inlined at its call sites; single-assignment naming temporaries are substituted "
